@@ -304,7 +304,10 @@ def run_member_joint(R, binary):
                 if isinstance(v, int) and k not in ("n", "events"):
                     agg[k] = agg.get(k, 0) + v
     need = ["in-j-apply+config-now-joint", "in-j-apply+config-now-simple", "in-j-advance+autoleave-appended", "in-j-gate/first/accepted", "in-j-gate/first/refused-pending",
-            "in-j-gate/first/refused-joint", "in-j-commit-by-joint-quorum", "in-j-hup+campaigns-joint", "in-j-restart", "in-j-recv-propFwd"]
+            "in-j-commit-by-joint-quorum", "in-j-hup+campaigns-joint", "in-j-restart", "in-j-recv-propFwd"]
+    if R.tier != "quick":
+        # the two rarer refusal reasons need a node that stays in an EXPLICIT joint configuration with nothing pending (0-10 per 4 000 events)
+        need += ["in-j-gate/first/refused-joint", "in-j-gate/first/refused-not-joint", "in-j-won-by-joint-quorum", "in-j-restart+config-now-joint"]
     missing = [k for k in need if summ.get(k, 0) == 0]
     nev = summ.get("events", 0)
     nontrivial = summ.get("in-j-apply+config", 0) + summ.get("in-j-advance+autoleave-appended", 0) + summ.get("in-j-commit-by-joint-quorum", 0) + \
